@@ -564,13 +564,16 @@ impl<const N: usize> Subscriptions<N> {
                 // Serialize into the front of `buf`, leaving the tail as the store's
                 // scratch (mirrors `Persist::store`). If it does not fit, skip it —
                 // persisting is optional, so a too-large subscription is simply not
-                // resumable across a reboot.
+                // resumable across a reboot. Its slot key is still cleared: the table is
+                // mirrored densely, so the key may hold the record of a subscription that
+                // is gone by now and that must not come back after a reboot.
                 let mut wb = WriteBuf::new(buf);
                 if record.to_tlv(&TLVTag::Anonymous, &mut wb).is_err() {
                     warn!(
                         "Subscription {:?} too large to persist; skipping",
                         sub.ids()
                     );
+                    kv.remove(key, buf)?;
                     continue;
                 }
 
